@@ -8,6 +8,7 @@ from . import base
 from .c06 import FIXED
 
 PROP = "C05"
+SOLVER = {'functions_encoded': ['generate_code.CompilerPassGatherCode.remove_labels', 'generate_code.remove_unused_labels / strip_code', 'emitted IC10 with labels kept / removed'], 'bounds': "E3: label names of 1..3 (thorough 4) symbolic characters over {a, b, '.', '1'}; targets: E1 bounds as in C01; programs enumerated"}
 HDR = base.witness.HDR
 
 ASSUMPTIONS = [
